@@ -1,8 +1,16 @@
 """C17 scenarios on the real `Cache` facade: recording backends, worker tasks with real context semantics,
 executor and the translation to lean/Drivers/C17.lean protocol lines.
 
-A scenario is {"regs": [[prefix, backend_id], ...], "ops": [op, ...]}; backend ids are 0..n-1 in order of
-first registration.  Ops (ctx = number of the task that runs the op; task 0 exists from the start):
+A scenario is {"regs": [[prefix, backend_id(, opts)], ...], "ops": [op, ...]}; backend ids are 0..n-1 in order of
+creation (every registration creates a backend object).  opts: {"disable": "kw" | "url" | "enable_kw" | "enable_url"}
+= configured as disabled through setup(disable=True) / "?disable=1" / setup(enable=False) / "?enable=0";
+{"lazy": true} = never initialised by the harness (the first command that reaches it initialises it).  The `regs`
+are set up before task 0 starts (every task inherits from that context).
+Ops (ctx = number of the task that runs the op; task 0 exists from the start):
+
+  ["setup", ctx, prefix, backend_id, opts]  task ctx calls cache.setup(url, prefix=prefix, ...) - a new prefix or one that
+                                          is registered already (the backend is replaced)
+  ["inv_enter", ctx] / ["inv_exit", ctx]  `with invalidate_further():` entered / left by that task
 
   ["fork", parent, child]                 parent runs asyncio.create_task(worker(child))
   ["disable", ctx, prefix, [cmd..]]       cache.disable(*cmds, prefix=prefix)
@@ -23,8 +31,8 @@ Executions are numbered per function in the order they start; a body returns "bo
 identifies the execution that produced it; a ContextVar set by the calling task (inherited by the tasks cashews
 creates on its behalf) tells which call started which execution and which call issued which backend command.
 
-Everything a backend object (registered backend or transaction wrapper) is asked to do is logged with the
-nesting depth of the call, so that "which command was *issued by the facade*" (depth 0) can be told from
+Everything a backend object (registered backend or transaction wrapper) is asked to do - every command and
+`init()` - is logged with the nesting depth of the call, so that "which command was *issued by the facade*" (depth 0) can be told from
 what backends do internally (set_lock -> set, get_match -> scan, transaction commit).
 """
 from __future__ import annotations
@@ -42,6 +50,7 @@ VAL = "written"
 _DEPTH: contextvars.ContextVar[int] = contextvars.ContextVar("c17_depth", default=0)
 _CALLID: contextvars.ContextVar = contextvars.ContextVar("c17_callid", default=None)
 _LOG: list | None = None
+_MUTE = False        # the harness itself is talking to a backend (loading values): not part of the trace
 
 GEN_CMDS = ("scan", "get_match")
 WATCHDOG = 120   # virtual seconds a single command / decorated call may take (lock waits are <= 10 s)
@@ -64,7 +73,7 @@ def keys_of(cmd: str, a: tuple, kw: dict) -> list[str]:
     if cmd == "ping":
         msg = kw.get("message", a[0] if a else None)
         return [msg.decode() if msg is not None else "PING"]
-    if cmd in ("clear", "get_keys_count"):
+    if cmd in ("clear", "get_keys_count", "init"):
         return []
     return [kw.get("key", a[0] if a else None)]
 
@@ -96,15 +105,20 @@ def _entry(kind: str, obj, cmd: str, a, kw) -> dict:
     e = {"depth": _DEPTH.get(), "kind": kind, "b": obj._c17_id(), "cmd": cmd, "keys": keys_of(cmd, a, kw)}
     if _CALLID.get() is not None:
         e["call"] = _CALLID.get()
-    if _LOG is not None:
+    if _LOG is not None and not _MUTE:
         _LOG.append(e)
     return e
+
+
+def _set_mute(on: bool) -> None:
+    global _MUTE
+    _MUTE = on
 
 
 def recording(base, kind: str):
     """subclass of `base` that logs every command it is asked to run"""
     ns = {}
-    for cmd in _commands():
+    for cmd in _commands() + ["init"]:
         orig = getattr(base, cmd, None)
         if orig is None:
             raise HarnessError(f"{base.__name__} has no method {cmd}: cannot record it")
@@ -364,37 +378,67 @@ async def _execute(sc) -> list[dict]:
     from cashews import Cache, Command, TransactionMode
     from cashews.exceptions import NotConfiguredError
 
+    from cashews import invalidate_further
+
     install()
     cache = Cache()
     backends = {}
-    for prefix, bid in sc["regs"]:
-        b = cache.setup("c17rec://?check_interval=0", prefix=prefix)
-        b.rec_id = bid
-        backends[bid] = b
     # every backend holds its own value under every key of the scenario (written directly, not through the facade)
     allkeys = set()
     for op in sc["ops"]:
         if op[0] == "cmd":
             allkeys.update(k for k in op[3] if "*" not in k)
-    for bid, b in backends.items():
-        await b.init()
-        for k in sorted(allkeys):
-            if "!" not in k:               # keys containing '!' are left absent
-                await b.set(k, f"v{bid}|{k}")
-    prefixes = [p for p, _ in sc["regs"]]
+    prefixes: list[str] = []          # currently registered, in order of first registration
+
+    async def do_setup(prefix, bid, opts):
+        opts = opts or {}
+        url, kw = "c17rec://?check_interval=0", {}
+        how = opts.get("disable")
+        if how == "kw":
+            kw["disable"] = True
+        elif how == "url":
+            url += "&disable=1"
+        elif how == "enable_kw":
+            kw["enable"] = False
+        elif how == "enable_url":
+            url += "&enable=0"
+        elif how:
+            raise HarnessError(f"bad setup option {opts}")
+        b = cache.setup(url, prefix=prefix, **kw)
+        b.rec_id = bid
+        if bid in backends:
+            raise HarnessError(f"backend id {bid} used twice")
+        backends[bid] = b
+        if prefix not in prefixes:
+            prefixes.append(prefix)
+        _set_mute(True)
+        try:
+            if not opts.get("lazy"):
+                await b.init()
+            for k in sorted(allkeys):
+                if "!" not in k:               # keys containing '!' are left absent
+                    await b.set(k, f"v{bid}|{k}")
+        finally:
+            _set_mute(False)
+
+    for reg in sc["regs"]:
+        await do_setup(reg[0], reg[1], reg[2] if len(reg) > 2 else None)
     cmd_of = {c.value: c for c in Command}
     sample = sorted(set(VIEW_CMDS) | {x for op in sc["ops"] if op[0] in ("disable", "enable", "enter") for x in op[3]})
 
     def views():
         """what this context sees: per registered prefix is_disable() / is_disable(cmd) and is_full_disable"""
         v = {}
-        for p in prefixes:
+        for p in list(prefixes):
             v[p] = [cache.is_disable(prefix=p)] + [cache.is_disable(cmd_of[c], prefix=p) for c in sample]
-        return {"per_prefix": v, "full": cache.is_full_disable}
+        # ... and of every backend object ever created (also the replaced ones), asked directly
+        vb = {str(bid): [b.is_disable()] + [b.is_disable(cmd_of[c]) for c in sample] + [b.is_full_disable]
+              for bid, b in backends.items()}
+        return {"per_prefix": v, "full": cache.is_full_disable, "per_backend": vb}
 
     queues: dict[int, asyncio.Queue] = {}
     tasks: dict[int, asyncio.Task] = {}
-    state = {"cms": {}, "tx": {}, "txoff": {}}
+    state = {"cms": {}, "tx": {}, "txoff": {}, "inv": {}, "invcms": {}}
     cfns: dict[int, dict] = {}        # fid -> {"kind", "keybase", "call", "execs": [...]}
     ccalls: dict[int, dict] = {}      # call -> {"fid", "ctx", "arg", "task", "full"}
 
@@ -498,6 +542,20 @@ async def _execute(sc) -> list[dict]:
                 child = op[2]
                 queues[child] = asyncio.Queue()
                 tasks[child] = asyncio.create_task(worker(child))
+                state["inv"][child] = state["inv"].get(ctx, False)       # the child copies the context
+                out["r"] = "ok"
+            elif kind == "setup":
+                await do_setup(op[2], op[3], op[4] if len(op) > 4 else None)
+                out["r"] = "ok"
+            elif kind == "inv_enter":
+                cm = invalidate_further()
+                cm.__enter__()
+                state["invcms"].setdefault(ctx, []).append(cm)
+                state["inv"][ctx] = True
+                out["r"] = "ok"
+            elif kind == "inv_exit":
+                state["invcms"][ctx].pop().__exit__(None, None, None)
+                state["inv"][ctx] = False                                # `_INVALIDATE_FURTHER.set(False)`, no nesting
                 out["r"] = "ok"
             elif kind == "disable":
                 cache.disable(*[cmd_of[c] for c in op[3]], prefix=op[2])
@@ -541,6 +599,8 @@ async def _execute(sc) -> list[dict]:
                 if ctx in state["txoff"]:
                     state["txoff"][ctx] &= fully_off()
                 out["dis"] = {str(bid): b.is_disable(cmd_of[name]) for bid, b in backends.items()}
+                out["isinit"] = {str(bid): bool(b.is_init) for bid, b in backends.items()}
+                out["inv"] = bool(state["inv"].get(ctx, False))
                 n0 = len(_LOG)
                 try:
                     out["r"] = await asyncio.wait_for(INVOKE[name](cache, ks), WATCHDOG)
@@ -548,7 +608,11 @@ async def _execute(sc) -> list[dict]:
                     out["log"] = _LOG[n0:]
                 if name in ("get", "get_many") and not out["intx"]:
                     # what a single-key read of every key on every backend gives right now (asked directly)
-                    out["direct"] = {str(bid): [await b.get(k, default=DFLT) for k in ks] for bid, b in backends.items()}
+                    _set_mute(True)
+                    try:
+                        out["direct"] = {str(bid): [await b.get(k, default=DFLT) for k in ks] for bid, b in backends.items()}
+                    finally:
+                        _set_mute(False)
             elif kind == "dec":
                 dkind, key, n = op[2], op[3], op[4]
                 out["full"] = cache.is_full_disable
@@ -631,7 +695,7 @@ async def _execute(sc) -> list[dict]:
         for op in sc["ops"]:
             ctx = op[1]
             before = None
-            if op[0] in ("fork", "disable", "enable", "enter", "exit"):
+            if op[0] in ("fork", "disable", "enable", "enter", "exit", "setup"):
                 before = {c: await send(c, ["views"]) for c in sorted(queues)}
             if op[0] == "cfin":
                 out = await c_finish(op[2])
